@@ -47,6 +47,18 @@ func NewMD(cfg string) goldmark.Markdown {
 			exts = append(exts, extension.Footnote)
 		case "typographer":
 			exts = append(exts, extension.Typographer)
+		case "typonoangle", "typonodash", "typonoquote":
+			// the typographer with some substitutions switched off (nil)
+			subs := extension.TypographicSubstitutions{}
+			switch e {
+			case "typonoangle":
+				subs[extension.LeftAngleQuote], subs[extension.RightAngleQuote] = nil, nil
+			case "typonodash":
+				subs[extension.EnDash], subs[extension.EmDash], subs[extension.Ellipsis] = nil, nil, nil
+			case "typonoquote":
+				subs[extension.LeftSingleQuote], subs[extension.RightSingleQuote], subs[extension.LeftDoubleQuote], subs[extension.RightDoubleQuote] = nil, nil, nil, nil
+			}
+			exts = append(exts, extension.NewTypographer(extension.WithTypographicSubstitutions(subs)))
 		case "cjk":
 			exts = append(exts, extension.CJK)
 		case "cjkcss3":
